@@ -2168,3 +2168,96 @@ Proof.
       destruct (C09_llgr_refresh_addpath x pol emax raddr cid c e r pid Em H Hany (fun p Hq => proj2 (Hp p Hq)) Hsent) as (op & Hop & Ht).
       rewrite (Hnot op Hop) in Ht. discriminate.
 Qed.
+
+(* ================================================================ the filters are exactly the rules *)
+Lemma ip_eqb_false : forall a b, ip_eqb a b = false <-> a <> b.
+Proof.
+  intros a b. split.
+  - intros H E. apply ip_eqb_eq in E. congruence.
+  - intro H. destruct (ip_eqb a b) eqn:E; [apply ip_eqb_eq in E; contradiction | reflexivity].
+Qed.
+
+(* echo filter + split horizon + route-server isolation let a path through exactly
+   when BGP allows it to go to that receiver (for every source but the kernel
+   pseudo-source, see kernel_routes_and_nonclient_ibgp) *)
+Theorem C09_visible_iff_may_send : forall x raddr cid p,
+  wf_source (p_src p) -> p_src p <> SrcKernel ->
+  (visible x raddr cid p = true <-> may_send (p_src p) (x_role x) raddr cid).
+Proof.
+  intros x raddr cid p Hwf Hnk. unfold visible, may_send, learned_from.
+  rewrite !andb_true_iff, !negb_true_iff. rewrite ip_eqb_false.
+  assert (Hrs : rs_isolation_suppress (p_src p) (x_role x) = false <-> (src_role (p_src p) = RsClient <-> x_role x = RsClient)).
+  { unfold rs_isolation_suppress, src_is_rs_client. rewrite negb_false_iff.
+    destruct (role_eqb (src_role (p_src p)) RsClient) eqn:E1; destruct (role_eqb (x_role x) RsClient) eqn:E2; cbn [Bool.eqb].
+    - apply role_eqb_eq in E1. apply role_eqb_eq in E2. tauto.
+    - apply role_eqb_eq in E1. apply (proj1 (role_eqb_neq _ _)) in E2. split; [discriminate | intro H; exfalso; tauto].
+    - apply (proj1 (role_eqb_neq _ _)) in E1. apply role_eqb_eq in E2. split; [discriminate | intro H; exfalso; tauto].
+    - apply (proj1 (role_eqb_neq _ _)) in E1. apply (proj1 (role_eqb_neq _ _)) in E2. tauto. }
+  rewrite Hrs.
+  assert (Hsh : ibgp_split_horizon_suppress (p_src p) (x_role x) cid = false <->
+                (ibgp_peer_source (p_src p) -> role_is_ibgp (x_role x) = true ->
+                 cid <> None /\ (src_role (p_src p) = IbgpRrClient \/ x_role x = IbgpRrClient))).
+  { unfold ibgp_split_horizon_suppress. destruct (role_is_ibgp (x_role x)) eqn:Ed; cbn [negb].
+    2:{ split; [intros _ _ H; discriminate | reflexivity]. }
+    destruct (p_src p) as [| |ps] eqn:Es.
+    - cbn. split; [|reflexivity]. intros _ (q & Hq & _). discriminate.
+    - contradiction.
+    - unfold is_ibgp_learned. cbn [src_is_local negb andb src_rasn src_lasn].
+      pose proof (Hwf ps eq_refl) as Hw.
+      destruct (ps_rasn ps =? ps_lasn ps) eqn:Ea; cbn [negb].
+      + apply N.eqb_eq in Ea. pose proof (proj1 Hw Ea) as Hrole.
+        assert (Hps : ibgp_peer_source (SrcPeer ps)) by (exists ps; auto).
+        unfold src_is_rr_client. cbn [src_role].
+        destruct cid as [cl|].
+        * rewrite andb_false_iff, negb_false_iff, role_eqb_eq, role_eqb_neq. split.
+          -- intros [H|H] _ _; split; try discriminate; [left; exact H|].
+             right. destruct (x_role x); try discriminate; [contradiction | reflexivity].
+          -- intro H. destruct (H Hps eq_refl) as [_ [H1|H1]]; [left; exact H1 | right; rewrite H1; discriminate].
+        * split; [discriminate|]. intro H. destruct (H Hps eq_refl) as [H1 _]. contradiction.
+      + split; [|reflexivity]. intros _ (q & Hq & _ & Hqa). inversion Hq; subst q.
+        apply N.eqb_neq in Ea. contradiction. }
+  rewrite Hsh. tauto.
+Qed.
+
+(* the exception: the kernel pseudo-source has remote_asn = local_asn = 0 and is not
+   Source::local(), so is_ibgp_learned holds of it; kernel-redistributed routes are
+   withheld from non-client iBGP peers (and reflected, with ORIGINATOR_ID 0.0.0.0,
+   to clients).  The property text does not forbid this; it is recorded here because
+   the model is faithful to it. *)
+Lemma kernel_routes_and_nonclient_ibgp : forall x raddr cid nh attrs lpid,
+  x_role x = Ibgp ->
+  visible x raddr cid {| p_lpid := lpid; p_src := SrcKernel; p_nh := nh; p_attrs := attrs |} = false.
+Proof.
+  intros x raddr cid nh attrs lpid Hr. unfold visible. cbn [p_src].
+  assert (H : ibgp_split_horizon_suppress SrcKernel (x_role x) cid = true).
+  { unfold ibgp_split_horizon_suppress. rewrite Hr. cbn. destruct cid; reflexivity. }
+  rewrite H. cbn [negb]. rewrite andb_false_r. reflexivity.
+Qed.
+
+(* best-only branch, completeness: a best path that may be sent and that the policy
+   accepts IS advertised, with the rewritten attributes; otherwise what was sent is
+   withdrawn *)
+Theorem C09_best_only_complete : forall fixed x pol raddr cid c e best rest,
+  c_best_changed c = true -> c_paths c = best :: rest ->
+  (forall a nh out,
+     visible x raddr cid best = true ->
+     policy_stage x pol cid (c_family c) best = Some (a, nh) ->
+     export_attrs x (llgr_stage best a) = Ok out ->
+     process_change_v fixed x pol 1 raddr cid c e
+     = Ok ([Reach (c_dest c) 0 nh out (p_src best)], em_mark_sent e (c_dest c) 0))
+  /\ ((visible x raddr cid best = false \/ policy_stage x pol cid (c_family c) best = None) ->
+      process_change_v fixed x pol 1 raddr cid c e
+      = if em_was_sent e (c_dest c)
+        then Ok ([Unreach (c_dest c) 0], em_mark_withdrawn e (c_dest c) 0)
+        else Ok ([], e)).
+Proof.
+  intros fixed x pol raddr cid c e best rest Hb Hp. unfold process_change_v. cbn [N.eqb Pos.eqb].
+  rewrite Hb, Hp. cbn [negb andb]. split.
+  - intros a nh out Hv Hs Hx. rewrite Hv, Hs, Hx. reflexivity.
+  - intros [Hv|Hs].
+    + rewrite Hv. reflexivity.
+    + destruct (visible x raddr cid best); [rewrite Hs|]; reflexivity.
+Qed.
+
+Example ex_wf_source : forall r rasn l, (rasn = 65001 <-> role_is_ibgp r = true) -> wf_source (SrcPeer (ex_peer r rasn l)).
+Proof. intros r rasn l H ps E. inversion E; subst ps. cbn. exact H. Qed.
